@@ -259,6 +259,25 @@ theorem check_structure_iff (ext : Bytes) :
   simp only [Bool.and_eq_true, decide_eq_true_eq]
   omega
 
+/-- `check_structure` looks at bytes 0 and 31 only -/
+theorem check_depends_only_on_b0_b31 (e1 e2 : Bytes) (h0 : e1.getD 0 0 = e2.getD 0 0) (h31 : e1.getD 31 0 = e2.getD 31 0) :
+    checkStructure e1 = checkStructure e2 := by
+  unfold checkStructure; rw [h0, h31]
+
+theorem mkExt_bytes (b0 b31 : UInt8) (filler : Bytes) (hf : 30 ≤ filler.length) :
+    (mkExt b0 b31 filler).getD 0 0 = b0 ∧ (mkExt b0 b31 filler).getD 31 0 = b31 := by
+  refine ⟨rfl, ?_⟩
+  have hlen : (List.take 30 filler).length = 30 := by simp; omega
+  simp [mkExt, List.getD_eq_getElem?_getD, List.getElem?_append, hlen]
+
+/-- every entry of the 256×256 table the stream compares against the real `from_bytes`: accepted exactly when
+    byte 0 is a multiple of 8 and byte 31 lies in `0x40..0x7f` -/
+theorem check_table_entry (b0 b31 : UInt8) (filler : Bytes) (hf : 30 ≤ filler.length) :
+    checkStructure (mkExt b0 b31 filler) = true ↔ b0.toNat % 8 = 0 ∧ 64 ≤ b31.toNat ∧ b31.toNat < 128 := by
+  obtain ⟨h0, h31⟩ := mkExt_bytes b0 b31 filler hf
+  rw [check_structure_iff, h0, h31]
+  omega
+
 theorem from_bytes_accepts_iff (ext : Bytes) : extFromBytes ext = some ext ↔ checkStructure ext = true := by
   unfold extFromBytes; split <;> simp_all
 
